@@ -60,7 +60,8 @@ RULE = ("dense / sparse / Kruskal / Tucker / sum holders of small-integer data o
         "weight pattern); "
         "plus a malformed stream (wrong sizes, contradictory mode designations, a mode listed twice, a mode index that "
         "is not a mode, factor lists of the wrong length). Each implementation result is compared with the Lean spec value (sum over indices) and with "
-        "the Lean model. non-trivial = accepted and operand has a non-zero entry; distinct = distinct case hash")
+        "the Lean model. ttv with ONE bare ndarray multiplicand on every mode (singleton modes: length-1 vectors) of every representation, "
+        "dims / exclude_dims / nothing designated (family ttv_bare_vector). non-trivial = accepted and operand has a non-zero entry; distinct = distinct case hash")
 ASSUMPTIONS = [
     "values are small integers, so every float operation of the implementation is exact (dtypes family: the "
     "exact result fits 53 bits, or the comparison allows 1e-12 relative)",
@@ -2019,6 +2020,50 @@ class SparseCoreFam(C02Family):
         return with_layouts(rng, out)
 
 
+# ----------------------------------------------------------------------------
+# ttv with ONE multiplicand handed over bare (an ndarray that is not inside a list)
+# ----------------------------------------------------------------------------
+class BareVectorFam(C02Family):
+    """`X.ttv(v, n)` with the vector itself as the first argument (documented for every class): the classes tell a bare
+    vector from a list of vectors by looking at its first entry, so the vector's LENGTH matters - every mode of
+    shapes with singleton modes (length-1 vectors), with longer modes, of order 1 (scalar result), for every
+    representation, under the dims and the exclude_dims convention (and with nothing designated for order 1); 1-d
+    arrays in every memory layout and storage type, for Kruskal tensors also n x 1 / 1 x n arrays."""
+    name = "ttv_bare_vector"
+    theorems = ("C02_ttv_dense", "C02_ttv_dense_dims", "C02_ttv_sparse", "C02_ttv_sparse_dims", "C02_ttv_spec_set",
+                "C02_exclude_dims", "C02_list_len_P")
+    SHAPES = ([1], [3], [1, 3], [3, 1], [1, 1], [2, 1, 3], [1, 2, 1], [3, 2], [2, 3, 4], [1, 1, 1], [2, 1, 1, 3])
+
+    def gen(self, rng, tier):
+        out = []
+        kinds = ["dense", "sparse", "kruskal", "tucker", "sum"]
+        for _ in range(1 if tier == "quick" else 6):
+            for kind in kinds:
+                for shape in self.SHAPES:
+                    N = len(shape)
+                    for n in range(N):
+                        convs = ["dims", "excl"] + (["none"] if N == 1 else [])
+                        if tier == "quick":
+                            convs = [rng.choice(convs)] if shape[n] > 1 else convs
+                        for conv in convs:
+                            w = vec(rng, shape[n], 0.1)
+                            c = {"op": "ttv", "X": rand_holder(rng, kind, list(shape)), "vs": [w],
+                                 "dims": [n] if conv == "dims" else None,
+                                 "excl": [d for d in range(N) if d != n] if conv == "excl" else None,
+                                 "sel": [n], "ws": [w], "bare": True,
+                                 "tag": ["bare", f"bare:{kind}:len{'1' if shape[n] == 1 else '>1'}", f"bare:{conv}"]}
+                            form = rng.choice(["1d", "1d", "col", "row"]) if kind == "kruskal" else "1d"
+                            if form != "1d":
+                                c["vlay"] = form
+                            else:
+                                c["vlay"] = rng.choice(["C", "strided"])
+                            if rng.random() < 0.3:
+                                c["mdtype"] = rng.choice(["int64", "float32", "int8"])
+                            c["tag"] += [f"bare:{form}", f"bare:dtype:{c.get('mdtype', 'float64')}"]
+                            out.append(c)
+        return with_layouts(rng, out)
+
+
 def families():
     return [TtvFam(), TtmFam(), MttkrpFam(), MttkrpsFam(), InnerFam(), ContractCollapseScaleFam(), TttFam(), FullFam(),
-            ExtrasFam(), CrossFam(), DtypesFam(), TtsvFam(), SparseCoreFam()]
+            ExtrasFam(), CrossFam(), DtypesFam(), TtsvFam(), SparseCoreFam(), BareVectorFam()]
